@@ -211,6 +211,7 @@ def _export_json(obj: Any) -> dict | float | int | str | bool | None:
         return {
             "__module__": "numpy",
             "__name__": "array",
+            "__array_dtype__": str(obj.dtype),
             "__value__": obj.tolist(),
         }
     # JAX arrays — serialize as numpy arrays; RectilinearGrid.__post_init__ re-wraps via jnp.asarray
@@ -218,6 +219,7 @@ def _export_json(obj: Any) -> dict | float | int | str | bool | None:
         return {
             "__module__": "numpy",
             "__name__": "array",
+            "__array_dtype__": str(obj.dtype),
             "__value__": np.asarray(obj).tolist(),
         }
     # jax data types
@@ -312,6 +314,10 @@ def _import_obj_from_json(obj: dict | list | float | int | str | bool | None) ->
     cls = getattr(module, name)
     if "__value__" in obj:
         vals = obj["__value__"]
+        # arrays carry their dtype: a bare nested list comes back as float64 under jax_enable_x64,
+        # which changes e.g. float32 grid edges and with them rounding ties during placement
+        if "__array_dtype__" in obj:
+            return cls(vals, dtype=obj["__array_dtype__"])
         # dataclass
         if isinstance(vals, dict):
             kwargs = {k: _import_obj_from_json(v) for k, v in vals.items()}
